@@ -240,7 +240,9 @@ func c05(c *Ctx) {
 		depthCap := 3 + r.Intn(4)
 		switch mode {
 		case "depth":
-			lim = search.Limits{Depth: 1 + r.Intn(6)}
+			// the node cap only bounds the cost of pathological configurations (stand-pat off on a
+			// board full of promoting pawns): it is far above what an ordinary depth 6 search needs
+			lim = search.Limits{Depth: 1 + r.Intn(6), Nodes: 1500000}
 		case "nodes":
 			lim = search.Limits{Nodes: nodeLimit, Depth: 8}
 		case "movetime":
